@@ -2,9 +2,11 @@ package main
 
 import (
 	"container/heap"
+	"context"
 	"fmt"
 	"math/rand"
 	"sync"
+	"sync/atomic"
 	"time"
 
 	theine "github.com/Yiling-J/theine-go"
@@ -469,6 +471,121 @@ func c04StoreCase(r *Run, idx int, rng *rand.Rand, nKeys, nTicks int, stepMode s
 	r.Sample(6, map[string]any{"store_case": idx, "step_mode": stepMode, "keys": nKeys, "ticks": nTicks, "classes_expired": len(classes)})
 }
 
+// c04Kinds: the same store-level rule on each cache kind (plain, loading, hybrid, hybrid-loading; the memory tier
+// large enough that nothing is evicted): deadlines set by SetWithTTL and - on loading kinds - returned by the loader,
+// on every wheel level; virtual time advances in PRNG steps with the tick body run after each; an entry whose
+// deadline plus one finest tick lies at or before the tick time must no longer be resident, and every entry that
+// leaves is reported EXPIRED exactly once, never before its deadline.
+func c04Kinds(r *Run, idx int) {
+	rng := r.Rng(int64(44000 + idx))
+	kind := anyKinds[idx%len(anyKinds)]
+	var mu sync.Mutex
+	type nt struct {
+		key int
+		val int64
+		rs  theine.RemoveReason
+		at  int64
+	}
+	var notes []nt
+	var a *anyCache
+	var loadTTL atomic.Int64
+	var seq atomic.Int64
+	a, err := newAnyCache(kind, anyOpts{MaxSize: 100000, Prob: 1, ProbSet: true,
+		Listener: func(k int, v int64, rs theine.RemoveReason) {
+			mu.Lock()
+			notes = append(notes, nt{k, v, rs, a.store().VerifNowNano()})
+			mu.Unlock()
+		},
+		Loader: func(ctx context.Context, k int) (theine.Loaded[int64], error) {
+			return theine.Loaded[int64]{Value: int64(idx)<<40 | 1<<39 | seq.Add(1), Cost: 1, TTL: time.Duration(loadTTL.Load())}, nil
+		}})
+	if err != nil {
+		r.Broken("build: %v", err)
+		return
+	}
+	defer a.store().Close()
+	st := a.store()
+	type lv struct {
+		val      int64
+		dLo, dHi int64
+		via      string
+		late     bool
+	}
+	live := map[int]*lv{}
+	pick := func() time.Duration {
+		switch rng.Intn(4) {
+		case 0:
+			return time.Duration(1+rng.Intn(59)) * time.Second
+		case 1:
+			return time.Duration(70+rng.Intn(3000)) * time.Second
+		case 2:
+			return time.Duration(75+rng.Intn(1200)) * time.Minute
+		}
+		return time.Duration(40+rng.Intn(200)) * time.Hour
+	}
+	N := 150 + rng.Intn(250)
+	for k := 0; k < N; k++ {
+		ttl := pick()
+		lo := st.VerifNowNano()
+		if a.loading() && k%2 == 1 {
+			loadTTL.Store(int64(ttl))
+			v, ok, err := a.get(context.Background(), k)
+			if err != nil || !ok {
+				continue
+			}
+			live[k] = &lv{val: v, dLo: lo + int64(ttl), dHi: st.VerifNowNano() + int64(ttl), via: "loader"}
+		} else {
+			v := int64(idx)<<40 | seq.Add(1)
+			if !a.set(k, v, 1, ttl) {
+				continue
+			}
+			live[k] = &lv{val: v, dLo: lo + int64(ttl), dHi: st.VerifNowNano() + int64(ttl), via: "set"}
+		}
+	}
+	a.wait()
+	fail := func(key, what string) {
+		r.Violate(key+"/"+kind, fmt.Sprintf("kinds case %d (%s cache, %d TTL entries, no evictions): %s", idx, kind, N, what), map[string]any{"cache": kind, "case_index": idx})
+	}
+	consumed, vias := 0, map[string]bool{}
+	for t := 0; t < 60 && len(live) > 0; t++ {
+		gap := []time.Duration{time.Second, time.Duration(1+rng.Intn(90)) * time.Second, time.Duration(1+rng.Intn(120)) * time.Minute, time.Duration(1+rng.Intn(60)) * time.Hour}[rng.Intn(4)]
+		st.VerifShiftClock(gap, true)
+		st.VerifTick()
+		a.wait()
+		now := st.VerifNowNano()
+		mu.Lock()
+		fresh := append([]nt(nil), notes[consumed:]...)
+		consumed = len(notes)
+		mu.Unlock()
+		for _, n := range fresh {
+			l := live[n.key]
+			switch {
+			case n.rs != theine.EXPIRED:
+				fail("unexpected-notification", fmt.Sprintf("key %d notified as %s; only expiry removes entries here", n.key, reasonName(n.rs)))
+			case l == nil || l.val != n.val:
+				fail("expired-stale-incarnation", fmt.Sprintf("EXPIRED for key %d value %#x, which is not a live value (a second report, or another incarnation)", n.key, n.val))
+			case n.at < l.dLo:
+				fail("expired-early", fmt.Sprintf("key %d (deadline set by the %s) reported EXPIRED %d ns before its earliest possible deadline", n.key, l.via, l.dLo-n.at))
+			default:
+				vias[l.via] = true
+				r.Count("kinds_expired_on_time", 1)
+			}
+			delete(live, n.key)
+		}
+		for k, l := range live {
+			if l.dHi+finestTick <= now && !l.late {
+				l.late = true
+				fail("late-reclaim/store/deadline-set-by-the-"+l.via, fmt.Sprintf("key %d: deadline %d, still resident at tick time %d = %.1f s late (allowed: one finest tick after the deadline at the next tick)", k, l.dHi, now, float64(now-l.dHi)/1e9))
+			}
+		}
+	}
+	r.Eval(1)
+	r.Count("kinds_cases", 1)
+	for v := range vias {
+		r.Distinct("kinds/" + kind + "/" + v)
+	}
+}
+
 // c04Behind: a TTL update whose event reaches the policy only after the wheel
 // has moved past the new deadline (client descheduled between its map update
 // and its event send — placed with hook H1).
@@ -588,6 +705,9 @@ func runC04(r *Run) {
 	// must still be reclaimed within a tick of the NEW deadline (c02.go expireRecheckScenario, variant 2)
 	for i := 0; i < r.Pick(2, 12); i++ {
 		expireRecheckScenario(r, 2, "C04")
+	}
+	for i := 0; i < r.Pick(8, 80); i++ {
+		c04Kinds(r, i)
 	}
 	parMap(len(jobs), 14, func(i int) {
 		j := jobs[i]
